@@ -5,6 +5,7 @@ package ice
 import (
 	"io"
 	"net/netip"
+	"time"
 
 	"github.com/pion/stun/v3"
 )
@@ -233,15 +234,27 @@ func verifC07Inbound() {
 	payload := verifBytes(verifPayloadLens[1+verifChoice(len(verifPayloadLens)-1)])
 	verifAssume(!verifLooksSTUN(payload))
 	conn := &Conn{agent: a}
-	before := w.snap()
-	cntBefore := a.buf.Count()
-	local.handleInboundPacket(payload, src)
-	after := w.snap()
-
 	var known Candidate
 	for _, r := range w.remotes {
 		if verifSrcIsRemote(src, r) {
 			known = r
+		}
+	}
+	// every remote has been silent for an hour: received data is what ends the
+	// silence (liveness of the pair is judged on LastReceived)
+	for _, r := range w.remotes {
+		verifBaseOf(r).setLastReceived(verifNow().Add(-time.Hour))
+	}
+	before := w.snap()
+	cntBefore := a.buf.Count()
+	local.handleInboundPacket(payload, src)
+	after := w.snap()
+	for _, r := range w.remotes {
+		fresh := verifNow().Sub(r.LastReceived()) < time.Minute
+		if r == known {
+			verifAssert(fresh, "delivered-data-refreshes-the-sender's-last-received")
+		} else {
+			verifAssert(!fresh, "data-refreshes-no-other-remote")
 		}
 	}
 	if known == nil {
@@ -260,6 +273,12 @@ func verifC07Inbound() {
 			sp := a.getSelectedPair()
 			verifAssert(sp.packetsReceived == 1 && sp.bytesReceived == uint64(len(payload)), "selected-pair-receive-counters")
 		}
+		// the next datagram of the same source (now answered from the
+		// per-candidate cache) counts as traffic just the same
+		verifBaseOf(known).setLastReceived(verifNow().Add(-time.Hour))
+		local.handleInboundPacket(payload, src)
+		verifAssert(verifNow().Sub(known.LastReceived()) < time.Minute, "every-later-datagram-refreshes-last-received-too")
+		verifAssert(a.buf.Count() == cntBefore+1, "second-datagram-delivered-once")
 	}
 	// the cache only maps an address to a current remote with that address
 	local.remoteCandidateCaches.Range(func(k, v any) bool {
